@@ -496,9 +496,12 @@ func (g *vtC15GenState) keyset() []int64 {
 func (g *vtC15GenState) fresh(parent int64) vtC15Payload {
 	r := g.r
 	p := vtC15Payload{plabel: parent}
-	if g.style == "deep" && r.Intn(8) != 0 {
+	if (g.style == "deep" || g.style == "siblings") && r.Intn(8) != 0 {
 		// uniform dimensions, roomy parents, small leaves: re-parenting is usually admissible
 		p.isParent = r.Intn(4) != 0
+		if g.style == "siblings" {
+			p.isParent = parent <= 0 // one level: parents at the top, their children share the min
+		}
 		for k := int64(0); k < 2; k++ {
 			p.max = append(p.max, [2]int64{k, 100000})
 			mn := int64(r.Intn(3))*1000 + g.frac()
@@ -665,6 +668,12 @@ func (g *vtC15GenState) parentChoice(self int64) int64 {
 			par = append(par, id)
 		}
 	}
+	if g.style == "siblings" && len(par) > 0 && r.Intn(6) != 0 {
+		if r.Intn(4) != 0 {
+			return par[0]
+		}
+		return g.pick(par)
+	}
 	switch x := r.Intn(25); {
 	case x < 3:
 		return -1
@@ -722,6 +731,15 @@ func (g *vtC15GenState) room(parent, self, k int64) (int64, bool) {
 	return have, true
 }
 
+func (g *vtC15GenState) hasBrother(self, parent int64) bool {
+	for id, c := range g.store {
+		if id != self && c.plabel == parent {
+			return true
+		}
+	}
+	return false
+}
+
 func (g *vtC15GenState) mutate(name int64, old vtC15Payload) vtC15Payload {
 	r := g.r
 	p := vtC15CopyPayload(old)
@@ -731,8 +749,12 @@ func (g *vtC15GenState) mutate(name int64, old vtC15Payload) vtC15Payload {
 	}
 	for i := 0; i < n; i++ {
 		x := r.Intn(14)
-		if g.style == "deep" && r.Intn(2) == 0 {
+		if g.style == "deep" && r.Intn(3) == 0 {
 			x = 0
+		} else if g.style == "siblings" && p.plabel > 0 && r.Intn(2) == 0 {
+			x = 4
+		} else if p.plabel > 0 && g.hasBrother(name, p.plabel) && r.Intn(3) == 0 {
+			x = 4 // a min against what the brothers leave
 		}
 		switch x {
 		case 12, 13: // change the namespaces (often to one somebody else declares)
@@ -805,7 +827,7 @@ func (g *vtC15GenState) mutate(name int64, old vtC15Payload) vtC15Payload {
 				p.ns = []int64{int64(1000 + r.Intn(4))}
 			}
 		case 4, 5, 6: // change a min
-			if len(p.min) > 0 && p.plabel > 0 && r.Intn(2) == 0 {
+			if len(p.min) > 0 && p.plabel > 0 && (r.Intn(2) == 0 || g.hasBrother(name, p.plabel)) {
 				// exactly what the brothers leave of the parent's min, or just above it
 				j := r.Intn(len(p.min))
 				if room, ok := g.room(p.plabel, name, p.min[j][0]); ok {
@@ -934,7 +956,7 @@ func (g *vtC15GenState) pods(target int64, ns []int64, likely bool) [][2]int64 {
 
 func vtC15Gen(r *rand.Rand, i int) (string, []int64) {
 	g := &vtC15GenState{r: r, qt: NewQuotaTopology(nil), store: map[int64]vtC15Payload{}}
-	g.style = []string{"small", "small", "small", "deep", "deep", "large", "special"}[r.Intn(7)]
+	g.style = []string{"small", "small", "small", "deep", "deep", "siblings", "siblings", "large", "special"}[r.Intn(9)]
 	maxOps := 10
 	if os.Getenv("VERIF_TIER") == "thorough" && r.Intn(4) == 0 {
 		maxOps = 24
@@ -953,7 +975,7 @@ func vtC15Gen(r *rand.Rand, i int) (string, []int64) {
 	defer vtC15SetGate(0)
 	in := []int64{gates, int64(nops)}
 	names := []int64{3, 4, 5, 6, 7}
-	if g.style == "deep" {
+	if g.style == "deep" || g.style == "siblings" {
 		names = []int64{3, 4, 5, 6, 7, 8}
 		nops += 3
 		in[1] = int64(nops)
